@@ -136,6 +136,13 @@ def build(thorough):
     ob(f'omega_remove[records,layouts=0..{no - 1}]', REC, 'omega_remove', dict(VH_TIER=tier))
     for region, func in REC_FINDINGS:
         ob(f'finding_{region}[records]', REC, func, dict(VH_TIER=tier, VH_REGION=region))
+    # 7 model level: parameters / random variables re-read from the generated code == in-memory ones ---------------------------
+    MEDITS = ['none', 'theta_init', 'theta_fix', 'theta_unfix_all', 'theta_bounds', 'theta_remove_upper', 'omega_init',
+              'sigma_init', 'add_theta', 'add_iiv', 'remove_iiv_last', 'remove_iiv_first', 'join', 'split', 'fix_omega',
+              'fix_all', 'block3_second_update']
+    for i, en in enumerate(MEDITS):
+        ob(f'model_params[edit={en}]', 'C04_model.py', 'model_params', dict(VH_EDIT=i), timeout=max(T, 450))
+    ob('model_params__twin', 'C04_model.py', 'model_params__twin', dict(VH_EDIT=1), timeout=150, kind='twin')
     # twins --------------------------------------------------------------------------------------------------------------
     for func, file, env in (('diff_ok', LCS, dict(VH_N=3)), ('reorder_ok', LCS, dict(VH_N=3)),
                             ('thetas_ok', UPD, dict(VH_K=2)), ('omegas_ok', UPD, dict(VH_K=2)),
